@@ -690,11 +690,15 @@ def run(ctx):
     nviol = 0
     code_dis = [0]
     dfa_checked = [0]
+    per_kind = {}
 
     def viol(tag, payload, no_input=False):
         nonlocal nviol
         nviol += 1
-        if nviol <= 6:
+        # at most 3 replay files per case kind and 15 in all, so that one noisy kind cannot hide another
+        kd = payload.get("kind", "?")
+        per_kind[kd] = per_kind.get(kd, 0) + 1
+        if per_kind[kd] <= 3 and sum(min(v, 3) for v in per_kind.values()) <= 15:
             ctx.violation(tag, payload, no_input=no_input)
 
     for case, il, ml in zip(cases, impl, model):
@@ -897,8 +901,9 @@ def run(ctx):
              "C08-nilfalse": "xsi:nil=\"false\" on a nillable element makes its (non-nillable) child elements fail with "
                              "NillNotAllowed: SchemaValidator::fNilFound is not cleared once the element that carried "
                              "xsi:nil has been checked (proposed repair: fixes/C08-nil-false-child.patch)",
-             "C08-counting": "with schema-full-checking off, two particles with the same element name in one content model "
-                             "share one counting state (Occurence is keyed by the element-map entry, i.e. by name): "
+             "C08-counting": "with schema-full-checking off, two particles with the same element name (or two wildcards of the "
+                             "same kind and namespace) in one content model share one counting state (Occurence is keyed "
+                             "by the element-map entry; the DFA model ModelDfa08 mirrors it): "
                              "(a{2,3}, b, a{1,2}) rejects <a/><a/><b/><a/> and accepts <a/><a/><b/><a/><a/><a/>; with full "
                              "checking on (leaves renamed for the UPA check) the verdicts are right",
              "C08-nilchildren": "an element with xsi:nil=\"true\" and element children is accepted when the children fit the "
